@@ -306,6 +306,29 @@ macro_rules! boundary_harness {
 }
 boundary_harness!(c17_bnd_01_exp, c17_bnd_01_wa, 1);
 boundary_harness!(c17_bnd_32_exp, c17_bnd_32_wa, 32);
+
+/// concrete-length pairs: all 64 bytes of the two labels symbolic, lengths concrete (reaches
+/// lengths far beyond what the symbolic-length harnesses can afford)
+macro_rules! pair_harness {
+    ($name:ident, $tc:ty, $a:expr, $b:expr) => {
+        #[kani::proof]
+        #[kani::unwind(258)]
+        #[kani::stub(alloc::fmt::format, crate::util::format_stub)]
+        fn $name() {
+            check_pair_concrete_len::<$tc>($a, $b);
+            kani::cover!(true);
+        }
+    };
+}
+pair_harness!(c17_pair_33_40_wa, Wa, 33, 40);
+pair_harness!(c17_pair_40_33_exp, Exp, 40, 33);
+pair_harness!(c17_pair_48_48_wa, Wa, 48, 48);
+pair_harness!(c17_pair_64_65_exp, Exp, 64, 65);
+pair_harness!(c17_pair_71_72_wa, Wa, 71, 72);
+pair_harness!(c17_pair_128_130_wa, Wa, 128, 130);
+pair_harness!(c17_pair_255_256_wa, Wa, 255, 256);
+pair_harness!(c17_pair_256_256_exp, Exp, 256, 256);
+
 include!("playback_c17.rs");
 
 #[kani::proof]
